@@ -52,17 +52,22 @@ D = "Lean 4 theorems (first layer) + model/code correspondence (differential, re
 CHECKS["C02"] = ("Proof: C02.write_then_read — on a well-formed side with a readable table, a successful writeFile leaves a well-formed side "
                  "whose table is the old one plus the linked chain, and the entry naming that chain reads back exactly the content, for every "
                  "content of every size (distinct flat sectors, prefix overwrite, the read loop is concatenation, chain walk); exact size law, "
-                 "announced block count. Not proved: the lift through the catalog bytes and the CLI loop (checked). Tie/oracle: create -> list "
-                 "-> extract of both real tools vs the compiled model and vs the sources, sizes 0 .. beyond a side.", D, "7 C02")
+                 "announced block count; with C05.one_write_keeps_consistency the catalog decoder finds exactly that chain for the new entry. Not "
+                 "proved: the report text (checked). Tie/oracle: create -> list -> extract of both real tools vs the compiled model and vs the "
+                 "sources, sizes 0 .. beyond a side, every block of a side as first block of a file.", D, "7 C02")
 CHECKS["C04"] = ("Proof so far: geometry of save for both flavours and FF padding of .sd slots, kind/flag dispatch table = documented table, "
                  "32-byte entry layout for every name length, status validity = layout's, initFileSystem keeps geometry, a freshly created side "
                  "is accepted by the independent checker Spec.Dos.fsck (kernel evaluation). Tie/oracle: created images vs model, decoded by two "
                  "independent readers (Lean Spec.Dos and a Python twin) that must agree with each other and with the sources.", D, "7 C04")
-CHECKS["C05"] = ("Proof: free+used+reserved = 160; chosen blocks are free hence never reserved; refusal for lack of blocks leaves the side "
-                 "untouched and happens exactly when free blocks are too few; refusal for lack of a catalog entry restores the table sector and "
-                 "leaves the 14 catalog sectors byte-identical; the linked chain reads back. The induction over whole histories of perform is "
-                 "not assembled (checked). Tie/oracle: all histories of depth <= 2/3 over 9 step kinds + random ones, refusals at every position, "
-                 "each step vs model + independent fsck + full read-back.", D, "7 C05")
+CHECKS["C05"] = ("Proof: C05.every_history_consistent / every_archive_consistent — after --create and ANY sequence of --add invocations (any sources, "
+                 "sizes, end-of-side markers, refusals) every side satisfies the invariant SideInv (geometry, readable table, track 20 reserved, every "
+                 "live entry names a duplicate-free linked chain ending in C1..C8, chains pairwise disjoint, used blocks = union of the chains), the "
+                 "run returns 0 and the archive is the serialisation of those sides; one writeFile either stores (slot that was not live, exactly the "
+                 "chosen free blocks) or refuses with the same table and catalog, no third outcome; every stored file reads back identically after "
+                 "any writeFile; free+used+reserved = 160. Hypothesis: source names without code point 0xFF (non-ASCII names are refused by the tools). "
+                 "Not proved: SideInv => acceptance by the independent Spec.Dos.fsck (both evaluated on every image). Tie/oracle: all histories of depth "
+                 "<= 2/3 over 9 step kinds, random ones, third-party pre-images with a full catalog and fragmented free space; each step vs model + "
+                 "independent fsck + full read-back.", D, "7 C05")
 CHECKS["C06"] = ("Proof: C06.old_files_intact — after a successful writeFile every entry on blocks that were not chosen and are off track 20 "
                  "reads back identically; chosen blocks are never blocks in use; a sector write touches one sector; the table setter rewrites "
                  "bytes 1..160 only; adding nothing saves the loaded sides and (fd) rewrites the image byte for byte. The catalog byte frame is "
@@ -70,14 +75,18 @@ CHECKS["C06"] = ("Proof: C06.old_files_intact — after a successful writeFile e
                  "arbitrary batches; byte-level frame check.", D, "7 C06")
 CHECKS["C07"] = ("Proof so far: for any table in which a duplicate-free chain below 160 is linked (any allocation order) the reader follows "
                  "exactly that chain; linking a disjoint chain keeps other chains; size formula; load accepts 1/2/4-sided fd and 4-sided sd with "
-                 "that many sides and rejects 3. Sector-level read theorem not yet proved. Tie/oracle: images from an independent writer (Python "
-                 "twin = Lean Spec.Dos.render) through real list/extract vs model vs abstract files.", D, "7 C07")
-CHECKS["C10"] = ("Proof so far: storing a file and processing a batch never move the cursor back, keep the number of sides and never touch a "
-                 "side the cursor has left; whenever the batch completes exactly one archive write happens. Tie/oracle: interleavings of files "
+                 "that many sides and rejects 3; the linear-time reader run by the model's extractor equals the slice-assignment loop of readFile on "
+                 "every input. reader o independent-writer = identity is not proved (executed). Tie/oracle: images from an independent writer (Python "
+                 "twin = Lean Spec.Dos.render, incl. one 157-block chain) through real list/extract vs model vs abstract files.", D, "7 C07")
+CHECKS["C10"] = ("Proof: storing a file and processing a batch never move the cursor back, keep the number of sides and never touch a "
+                 "side the cursor has left; C10.always_completes — on a consistent image every batch (sources dropped after the fourth side, files "
+                 "refused on every side, markers beyond the last side) returns 0 and writes exactly one archive, the serialisation of four consistent "
+                 "sides. Report sections = image sides is checked, not proved. Tie/oracle: interleavings of files "
                  "and --eos on fresh / partially filled images; report sections and decoded image vs an independent replay of the placement rule.", D, "7 C10")
 CHECKS["C11"] = ("Proof: the payload setter never changes the sector length and overwrites exactly min(|v|,256) bytes (any length); save length "
                  "= sides x 1280 x sector size; .sd = .fd payloads with FF interleaved; both tools compute the same sides; load then save is the "
-                 "identity for 1/2/4-sided .fd. Tie/oracle: same sources through both tools, no-op adds over tool-made / independent / bundled "
+                 "identity for 1/2/4-sided .fd; save then load is the identity for four well-formed sides in both flavours, so both flavours load "
+                 "back the same disk. Tie/oracle: same sources through both tools, no-op adds over tool-made / independent / bundled "
                  "images, DiskSector.dataOfPayload for every length 0..600 (exhaustive).", D, "7 C11")
 CHECKS["C12"] = ("Proof so far: tape create/list lines carry the true size, data-block count and leader ordinal; disk plural rule, per-file "
                  "counter steps, per-side reset, announced blocks = chain blocks, listed size = content length. Tie/oracle: reports of "
